@@ -173,3 +173,75 @@ def run(ctx, R):
     R.notes.append("arms stepping unconditionally after a builtin that may fail: %d (all must be listed exceptions)" % n_unc)
     n = orframe.check(F, R, "C07")
     R.floor("or-frame obligations", n, 60)
+    call_execute_twins(F, R, dl)
+
+
+# Call*/Execute* arm pairs that are written differently on purpose; for these only the tag sets are compared
+TWIN_EXCEPTIONS = {
+    "CallAtomChars": "the Call arm uses step_or_fail!, the Execute arm spells the same test out",
+    "CallContinuation": "one helper with a flag: call_continuation(false) / call_continuation(true)",
+    "CallDynamicModuleResolution": "call_clause vs execute_clause",
+    "CallFastCallN": "closure over try_call vs try_execute",
+    "CallInvokeClauseAtP": "the Execute form also has to deallocate the frame of '$clause'",
+    "CallN": "call_n vs execute_n",
+    "CallNamed": "try_call vs try_execute on the resolved index",
+    "CallSetCutPoint": "the Execute form redirects the cleaner call into an execute (set_cut_point calls call_by_index)",
+}
+
+
+def _canon(n):
+    if isinstance(n, list):
+        return [_canon(x) for x in n]
+    if not isinstance(n, dict):
+        return n
+    k = n.get("k")
+    if k == "AssignOp" and n["lhs"].get("k") == "Field" and n["lhs"].get("name") == "p":
+        return "CONTINUE"
+    if k == "Assign" and n["lhs"].get("k") == "Field" and n["lhs"].get("name") == "p" and any(x.get("k") == "Field" and x.get("name") == "cp" for x in walk(n["rhs"])):
+        return "CONTINUE"
+    return {kk: _canon(v) for kk, v in n.items() if kk not in ("ln", "mac", "span")}
+
+
+def _tags(n):
+    out = []
+    for x in walk(n):
+        r = res_name(x) or ""
+        m = re.search(r"(HeapCellValueTag|ArenaHeaderTag)::(\w+)$", r)
+        if m:
+            out.append(m.group(2))
+    return sorted(out)
+
+
+def call_execute_twins(F, R, dl):
+    """Every inlined builtin has two instructions, Call<X> (continue at p + 1) and Execute<X> (last call: continue at cp).
+    Apart from that continuation the two arms of dispatch_loop must do the same thing: same helper, same tag tests, same
+    failure handling. Which of the two the compiler emits depends only on the goal's position in the clause body."""
+    import json
+    from .core import matches_in, pat_leaves, pat_variant
+    h = F.hir(dl)
+    arms = {}
+    for m in matches_in(h["body"], src=None):
+        for arm in m["arms"]:
+            for leaf in pat_leaves(arm["pat"]):
+                v = pat_variant(leaf)
+                if v and "Instruction::" in v:
+                    arms.setdefault(v.rsplit("::", 1)[1], arm)
+    n = 0
+    for name, arm in sorted(arms.items()):
+        twin = "Execute" + name[4:]
+        if not name.startswith("Call") or twin not in arms:
+            continue
+        n += 1
+        where = "%s:%s dispatch_loop arms %s / %s" % (F.items[dl]["file"], arm["ln"], name, twin)
+        ta, tb = _tags(arm["body"]), _tags(arms[twin]["body"])
+        if name in TWIN_EXCEPTIONS:
+            R.ob("C07:call-execute-twin:%s:same-tags" % name[4:], ta == tb,
+                 "%s and %s are written differently on purpose (%s) but must test the same cell tags: %s vs %s" % (name, twin, TWIN_EXCEPTIONS[name], ta, tb), where)
+            continue
+        same = json.dumps(_canon(arm["body"]), sort_keys=True) == json.dumps(_canon(arms[twin]["body"]), sort_keys=True)
+        extra = ""
+        if ta != tb:
+            extra = "; cell tags only in %s: %s, only in %s: %s" % (name, sorted(set(ta) - set(tb)), twin, sorted(set(tb) - set(ta)))
+        R.ob("C07:call-execute-twin:%s" % name[4:], same,
+             "the arms of %s and %s differ in more than the continuation (p += 1 / p = cp)%s: the builtin behaves differently as the last goal of a clause" % (name, twin, extra), where)
+    R.floor("Call/Execute instruction pairs", n, 270)
